@@ -12,9 +12,9 @@ ROOT = os.environ.get("VERIF_ROOT", "/verif")
 FUZZ = "/verif/harness/fuzz"
 TARGETS = {
     # id: (target, class, runs, max_len, binary)
-    "C07": ("value_diff", "bytes", 3_000_000, 256, "vcodec"),
-    "C13": ("convert_diff", "malformed", 2_000_000, 400, "vcodec"),
-    "C08": ("message_diff", "bytes-raw", 3_000_000, 300, "vcodec"),
+    "C07": ("value_diff", "bytes", 2_000_000, 256, "vcodec"),
+    "C13": ("convert_diff", "malformed", 400_000, 400, "vcodec"),
+    "C08": ("message_diff", "bytes-raw", 2_000_000, 300, "vcodec"),
     "C14": ("packetizer_chunks", "packetizer", 300_000, 500, "vcodec"),
     "C11": ("broker_abuse", "abuse", 200_000, 1400, "vbus"),
 }
@@ -43,7 +43,10 @@ def main():
         open(f"{work}/corpus/seed{i}", "wb").write(bytes(rng.randrange(256) for _ in range(n)))
     jobs = int(os.environ.get("VERIF_FUZZ_JOBS", "8"))
     per = max(1, runs // jobs)
-    cmd = [exe, f"-runs={per}", f"-seed={seed}", f"-max_len={max_len}", "-len_control=0", f"-artifact_prefix={work}/artifacts/", f"-jobs={jobs}", f"-workers={jobs}", work + "/corpus"]
+    # the run count is the budget; the time cap only keeps an overloaded machine from spending hours
+    # (a capped campaign explored less, which the evidence shows; it is never a verdict)
+    cap = int(os.environ.get("VERIF_FUZZ_MAX_S", "1500"))
+    cmd = [exe, f"-runs={per}", f"-max_total_time={cap}", f"-seed={seed}", f"-max_len={max_len}", "-len_control=0", f"-artifact_prefix={work}/artifacts/", f"-jobs={jobs}", f"-workers={jobs}", work + "/corpus"]
     r = subprocess.run(cmd, cwd=work, env=dict(env, VERIF_ROOT=ROOT), stdout=subprocess.PIPE, stderr=subprocess.STDOUT, text=True)
     out = ""
     for i in range(jobs):
